@@ -14,6 +14,7 @@ with op one of
   ['cap', dir, value]               the network changes the in-flight capacity
   ['tick']                          advance virtual time to the next timer
   ['estab']                         fair scheduling until both sides report 'established'
+  ['wait', ms]                      the virtual clock advances (drives the adaptive segment sizing)
 
 The executor returns a Trace with everything the oracles need.
 '''
@@ -53,6 +54,9 @@ def configs(draw, keepalive=False, priv_ext=True):
     for side in ('a', 'b'):
         cfg[side] = dict(seg_init=draw(st.sampled_from(SEG_SIZES)), mru=draw(st.sampled_from(SEG_SIZES)),
                          keepalive=0, idle=0)
+        if draw(st.integers(0, 3)) == 0:
+            # adaptive segment sizing: needs the virtual clock to move between a segment and its ACK ('wait' ops)
+            cfg[side]['target_ack'] = draw(st.sampled_from([1, 5]))
     cfg['cap_ab'] = draw(st.sampled_from(CAPS))
     cfg['cap_ba'] = draw(st.sampled_from(CAPS))
     cfg['regime'] = draw(st.sampled_from(REGIMES))
@@ -97,6 +101,8 @@ def cases(draw, max_ops=14, terminate=False, closes=False, vanish=False, allow_z
         ops.append(['estab'])
     for _ in range(n_ops):
         kinds = ['send', 'send', 'run', 'run', 'run', 'pop']
+        if any(cfg[x].get('target_ack') for x in ('a', 'b')):
+            kinds += ['wait', 'wait']
         if caps_change:
             kinds.append('cap')
         if queries:
@@ -114,6 +120,8 @@ def cases(draw, max_ops=14, terminate=False, closes=False, vanish=False, allow_z
             ops.append(draw(run_ops()))
         elif kind == 'pop':
             ops.append(['pop', draw(_side())])
+        elif kind == 'wait':
+            ops.append(['wait', draw(st.sampled_from([1, 2, 10, 100, 1000, 5000]))])
         elif kind == 'cap':
             ops.append(['cap', draw(st.sampled_from(['ab', 'ba'])), draw(st.sampled_from(CAPS))])
         elif kind == 'query':
@@ -302,6 +310,8 @@ def execute(case, final_drain=True, drain_timers=False):
             world.link.pipe(op[1]).capacity = op[2]
         elif kind == 'tick':
             world.advance_to_next_timer()
+        elif kind == 'wait':
+            simloop.advance_to(simloop.CLOCK.now_ms + max(0, int(op[1])))
         elif kind == 'estab':
             # cooperative start-up: run fairly until both sides are established
             world.drain(max_rounds=400, stop=lambda: all(e.hdl._state == 'established' for e in world.ends.values()))
